@@ -172,23 +172,59 @@ def pattern_fragments(check: Check, repo) -> None:
 
 
 def seeding(check: Check, repo) -> None:
+    """The offset handed to the entry point is the one the cursor starts from — decided on
+    the binding of every ParserState(...) call to the constructor's parameters (roles, not
+    text: a reordered signature with every caller updated passes, a caller left behind fails)."""
+    from ..binding import field_sources, role_of
+    from .. import modcheck, ops
+
     init = repo.func("src/pest/state.py", "ParserState.__init__")
-    params = [a.arg for a in init.args.args]
-    src = ast.unparse(init)
-    ok = "start_pos" in params and "self.pos = start_pos" in src
-    check.oblige("SEED", "src/pest/state.py::ParserState.__init__", "pos is seeded from start_pos" if ok else "ParserState.__init__ does not seed pos from start_pos", ok)
-    parse = repo.func("src/pest/parser.py", "Parser.parse")
-    calls = [n for n in ast.walk(parse) if isinstance(n, ast.Call) and ast.unparse(n.func) == "ParserState"]
-    ok = bool(calls) and all(len(c.args) >= 2 and ast.unparse(c.args[0]) == "text" and ast.unparse(c.args[1]) == "start_pos" for c in calls)
-    check.oblige("SEED", "src/pest/parser.py::Parser.parse", "Parser.parse passes (text, start_pos) to a fresh ParserState" if ok else "Parser.parse does not pass (text, start_pos) to ParserState", ok)
-    gen = repo.func("src/pest/grammar/codegen/generate.py", "generate_parse_entry_point")
-    lines = [n.value for n in ast.walk(gen) if isinstance(n, ast.Constant) and isinstance(n.value, str)]
-    ok = any("ParserState(text, start_pos)" in ln for ln in lines) and any("start_pos: int = 0" in ln for ln in lines)
-    check.oblige("SEED", "src/pest/grammar/codegen/generate.py::generate_parse_entry_point", "generated parse() passes (text, start_pos)" if ok else "generated parse() does not pass start_pos through", ok)
+    fs = field_sources(init)
+    ok = "pos" in fs and "input" in fs
+    check.oblige("SEED", "src/pest/state.py::ParserState.__init__", "pos and input are seeded from constructor parameters" if ok else "ParserState.__init__ does not seed pos / input from its parameters", ok)
+    if not ok:
+        return
+    default = None
+    a = init.args
+    pos_params = a.posonlyargs + a.args
+    for p, d in list(zip(pos_params[len(pos_params) - len(a.defaults):], a.defaults)) + [(p, d) for p, d in zip(a.kwonlyargs, a.kw_defaults) if d is not None]:
+        if p.arg == fs["pos"]:
+            default = ast.unparse(d)
+    ok = default in (None, "0")
+    check.oblige("SEED", "src/pest/state.py::ParserState.__init__", "the start offset defaults to 0" if ok else f"the start offset defaults to {default}", ok)
+
+    def entry(construct: str, fn: ast.FunctionDef) -> None:
+        calls = [n for n in ast.walk(fn) if isinstance(n, ast.Call) and ast.unparse(n.func) == "ParserState"]
+        params = [x.arg for x in fn.args.args + fn.args.kwonlyargs]
+        if not calls or "start_pos" not in params or "text" not in params:
+            raise AnalysisError(f"anchor vanished: {construct} has no ParserState(...) call or no (text, start_pos) parameters")
+        for c in calls:
+            got_pos = role_of(c, init, "pos", construct)
+            got_inp = role_of(c, init, "input", construct)
+            ok = got_pos == "start_pos" and got_inp == "text"
+            what = "the entry point's (text, start_pos) seed the state's input and cursor" if ok else f"`{ast.unparse(c)}` seeds the cursor from {got_pos or 'the default'} and the input from {got_inp or 'the default'}, not from (start_pos, text)"
+            check.oblige("SEED", construct, what if ok else "the entry point's start_pos / text do not seed the state's cursor / input", ok,
+                         finding=None if ok else Finding("SEED", construct, "the entry point's start_pos / text do not seed the state's cursor / input", f"{construct.split('::')[-1]}: {what}"))
+            check.count("seed_facts")
+
+    entry("src/pest/parser.py::Parser.parse", repo.func("src/pest/parser.py", "Parser.parse"))
+    masks = ops.modifier_masks(repo)
+    n = 0
+    for label, sk, _ in modcheck.module_skeletons(repo, masks):
+        try:
+            tree = ast.parse(sk.source)
+        except SyntaxError:
+            continue  # C01 SYNTAX
+        for fn in tree.body:
+            if isinstance(fn, ast.FunctionDef) and fn.name == "parse":
+                entry("src/pest/grammar/codegen/generate.py::generate_parse_entry_point", fn)
+                n += 1
+    if not n:
+        raise AnalysisError("anchor vanished: no generated module skeleton has a parse() entry point")
     fail = ast.unparse(repo.func("src/pest/state.py", "ParserState.fail"))
     ok = "self.furthest_pos = pos" in fail and "self.pos" in fail
     check.oblige("SEED", "src/pest/state.py::ParserState.fail", "fail() records absolute offsets (self.pos)" if ok else "fail() does not record self.pos", ok)
-    check.count("seed_facts", 4)
+    check.count("seed_facts", 2)
 
 
 def or_default(check: Check, repo, rep) -> None:
